@@ -65,7 +65,7 @@ def _fields(node, is_leaf):
     return " ".join([enc_s(d.get('label') if d.get('label') is not None else ""),
                      enc_s(d.get('word')), enc_s(d.get('lemma')), enc_s(d.get('morph')),
                      enc_s(d.get('edge')), enc_ob(d.get('head')), enc_ob(d.get('split')),
-                     enc_ob(d.get('head_block')), enc_on(d.get('block_number'))])
+                     enc_ob(d.get('head_block')), enc_on(d.get('block_number')), enc_on(d.get('uid'))])
 
 
 def enc_tree(node, canon=False):
